@@ -277,7 +277,8 @@ def check_mirror(chk, rule, fname, sign):
     if got is not None:
         want = coosem.expected(sign)
         chk.ob(rule, shape_ok, SPARSE, fname, 'result', line=fn.lineno,
-               expected='coo_matrix((v, (r, c)), shape=m.shape)', got='shape is not m.shape' if not shape_ok else 'ok')
+               expected='coo_matrix((v, (r, c)), shape=m.shape[, dtype=m.dtype]) returned for every square argument',
+               got=('the function raises for a square argument' if any(len(t) == 1 for t in got['lt']) else 'shape is not m.shape, or a dtype / keyword other than the argument\'s own') if not shape_ok else 'ok')
         keep = ('R', 'C', ('D', 1))
         ok_keep = got['eq'] == want['eq'] and got['gt'] == want['gt'] and got['lt'].count(keep) == 1
         chk.ob(rule, ok_keep, SPARSE, fname, 'kept part', line=fn.lineno,
@@ -289,7 +290,7 @@ def check_mirror(chk, rule, fname, sign):
             rest.remove(keep)
         wantm = ('C', 'R', ('D', sign))
         for k, pos in (('r', 0), ('c', 1), ('v', 2)):
-            ok = len(rest) == 1 and rest[0][pos] == wantm[pos]
+            ok = len(rest) == 1 and len(rest[0]) == 3 and rest[0][pos] == wantm[pos]
             chk.ob(rule, ok, SPARSE, fname, 'mirror ' + k, line=fn.lineno,
                    expected='row<col: %s' % coosem.show(want['lt']), got='row<col: %s' % coosem.show(got['lt']),
                    sample='%s mirrors strictly-upper entries with sign %+d (contributions per stored entry)' % (fname, sign))
